@@ -33,6 +33,7 @@
 #include "status_printer.h"
 #include "util.h"
 #include "metrics.h"
+#include "debug_flags.h"
 
 #include "json.h"
 #include "vdisk.h"
@@ -506,6 +507,7 @@ JV Invocation(World& w, const JV& step, const std::string& scratch) {
   g_rng = 88172645463325252ull ^ ((uint64_t)step.at("sched").num("seed", 1) * 0x9E3779B97F4A7C15ull);
   if (!g_rng) g_rng = 1;
 
+  g_explaining = step.boolean("explain");
   JV result = JV::Obj();
   std::string err;
   int cycles = 0;
